@@ -477,6 +477,18 @@ impl Interp {
                     Ok(Err(e)) => fmt_err(&e),
                     Err(p) => format!("panic {}", panic_name(p)),
                 };
+                // C13 oracle, computed directly from the bytes: accepted exactly when the string ends
+                // with a complete trailer (known magic, full record, known codec id); never a panic
+                let want = match decode::trailer(&b) {
+                    Ok(_) => "ok".to_string(),
+                    Err(kind) => format!("err {}", kind),
+                };
+                let f1 = if f1.starts_with("panic") || (f1.starts_with("ok") != (want == "ok")) {
+                    self.oracle_failures += 1;
+                    format!("ORACLE-FAIL open_of_{}_bytes_gives_{}_expected_{}", b.len(), f1.replace(' ', "_"), want.replace(' ', "_"))
+                } else {
+                    f1
+                };
                 let st = stats.borrow();
                 let low = if st.bytes == 0 { 0 } else { b.len() as u64 - st.low };
                 self.emit(line, f1, format!("seeks={} bytes={} low={}", st.seeks, st.bytes, low));
